@@ -52,7 +52,9 @@ class ResolveOuterVars(ast.NodeTransformer):
             scope = scope.parent
             has = set()
             if isinstance(scope, ScopeFn):
-                has = scope.defined
+                # As in Python, the names of a class body aren't visible
+                # to `nonlocal` in the methods.
+                has = scope.defined if scope.is_fn else set()
             elif isinstance(scope, ScopeLet):
                 has = set(scope.bindings.keys())
             elif isinstance(scope, ScopeGlobal):
